@@ -1925,7 +1925,7 @@ def line_spanning_kinds_measured(prog, rep, R):
             for o in outer:
                 measured.add((o, inner[0] if inner else None))
     missing = [k for k in MULTILINE_CAPABLE if k not in measured and (k[0], None) not in measured]
-    rep.check(not missing, R, "every-line-spanning-kind-is-measured-by-its-last-line",
+    rep.check(not missing, R, "every-line-spanning-kind-is-measured-by-its-last-line" if not missing else "line-spanning-kinds-measured-whole:" + "+".join(k[0] + ("(%s)" % k[1] if k[1] else "") for k in missing),
               "token kinds that can contain a line break but are measured by their whole length (all lines and their terminators counted as one line): %s — `Foo(aaaa, {$I⏎ x.inc} bbbb);` is laid out "
               "as if the directive were 13 columns wide: it is wrapped at a wrap_column its own one-line result fits in, and differently for CRLF and LF inside the directive" % [("%s(%s)" % k if k[1] else k[0]) for k in missing],
               instance={"measured_by_last_line": sorted("%s(%s)" % k if k[1] else k[0] for k in measured), "line_spanning_kinds": ["%s(%s)" % k if k[1] else k[0] for k in MULTILINE_CAPABLE]})
